@@ -413,7 +413,7 @@ impl EndpointConfig {
 #[cfg(uflow_verif)]
 #[allow(missing_docs)]
 pub mod verif {
-    pub use crate::half_connection::{HalfConnection, Config, FrameSink, PacketSink, VerifSnapshot};
+    pub use crate::half_connection::{HalfConnection, Config, FrameSink, PacketSink, VerifSnapshot, VerifLimits};
     pub use crate::half_connection::{SendRateComp, FeedbackData, VerifRateState};
     pub use crate::half_connection::{ReorderBuffer, LossIntervalQueue};
     pub use crate::frame::*;
